@@ -207,6 +207,25 @@ pub fn render_tree(v: &Dv, out: &mut String) -> usize {
     n
 }
 
+
+/// node ids of every `Expr` of kind `Variable` in the Debug tree (for the hover / go-to-definition agreement check)
+pub fn variable_ids(v: &Dv, out: &mut std::collections::HashSet<usize>) {
+    match v {
+        Dv::Atom(_) => {}
+        Dv::List(xs) | Dv::Tuple(_, xs) => xs.iter().for_each(|x| variable_ids(x, out)),
+        Dv::Struct(name, fs) => {
+            if name == "Expr" {
+                if let Some(Dv::Tuple(k, _)) = field(fs, "kind") {
+                    if k == "Variable" {
+                        out.insert(id_of(fs));
+                    }
+                }
+            }
+            fs.iter().for_each(|(_, x)| variable_ids(x, out));
+        }
+    }
+}
+
 // ------------------------------------------------------------------ typed program generator
 #[derive(Clone, Debug, PartialEq)]
 pub enum Ty {
@@ -273,12 +292,16 @@ struct StructD {
     name: String,
     decl: DeclRef,
     fields: Vec<(String, Ty, DeclRef)>,
+    /// an extension method `fn <name>(self, <params>) -> int`
+    method: Option<(String, DeclRef, Vec<(String, Ty)>)>,
 }
 #[derive(Clone, Debug)]
 struct EnumD {
     name: String,
     decl: DeclRef,
     variants: Vec<(String, Vec<Ty>, DeclRef)>,
+    /// per variant: the field names when its fields are declared with names
+    vnames: Vec<Option<Vec<String>>>,
 }
 #[derive(Clone, Debug)]
 struct Var {
@@ -288,6 +311,8 @@ struct Var {
     mutable: bool,
     /// reachable only as `<alias>.<name>`
     alias: Option<(String, DeclRef)>,
+    /// named functions: parameter names and whether each has a default value
+    params: Vec<(String, bool)>,
 }
 
 pub struct Opts {
@@ -313,6 +338,9 @@ pub struct Gen<'a> {
     /// the expression being written is directly a call argument or the initializer of an annotated `let`
     /// (the checker does not infer the result type of an alias-qualified call `lb.f()` on its own)
     typed_ctx: bool,
+    /// index of the first scope that belongs to the innermost enclosing lambda / task (captured variables
+    /// below it cannot be assigned)
+    closure_base: usize,
     feats: Vec<&'static str>,
 }
 
@@ -323,7 +351,7 @@ impl<'a> Gen<'a> {
     pub fn new(rng: &'a mut Rng, opts: &'a Opts) -> Self {
         Gen {
             rng, opts, structs: vec![], enums: vec![], vis_structs: vec![], vis_enums: vec![], scopes: vec![],
-            cur: FileOut::default(), cur_idx: 0, ind: 0, budget: 0, dot_ok: false, typed_ctx: false, feats: vec![],
+            cur: FileOut::default(), cur_idx: 0, ind: 0, budget: 0, dot_ok: false, typed_ctx: false, closure_base: 0, feats: vec![],
         }
     }
 
@@ -474,7 +502,7 @@ impl<'a> Gen<'a> {
         out
     }
     fn bind(&mut self, name: &str, ty: Ty, decl: DeclRef, mutable: bool) {
-        self.scopes.last_mut().unwrap().push(Var { name: name.to_string(), ty, decl, mutable, alias: None });
+        self.scopes.last_mut().unwrap().push(Var { name: name.to_string(), ty, decl, mutable, alias: None, params: vec![] });
     }
 
     fn use_var(&mut self, v: &Var) {
@@ -561,12 +589,8 @@ impl<'a> Gen<'a> {
                 self.ident(&sd.name, Some(sd.decl.clone()), "ctor-use");
                 let p0 = self.pos();
                 self.w("(");
-                for (k, (_, ft, _)) in sd.fields.iter().enumerate() {
-                    if k > 0 {
-                        self.w(", ");
-                    }
-                    self.expr(ft, depth + 1);
-                }
+                let params: Vec<(Option<String>, Ty, bool)> = sd.fields.iter().map(|(n, ft, _)| (Some(n.clone()), ft.clone(), false)).collect();
+                self.call_args(&params, depth);
                 self.w(")");
                 let hi = self.pos();
                 self.probe(p0, p0 + 1, t, "call-paren");
@@ -575,7 +599,9 @@ impl<'a> Gen<'a> {
             }
             Ty::Enum(i) => {
                 let ed = self.enums[*i].clone();
-                let (vn, vts, vd) = self.rng.pick(&ed.variants).clone();
+                let vi = self.rng.below(ed.variants.len() as u64) as usize;
+                let (vn, vts, vd) = ed.variants[vi].clone();
+                let vnames = ed.vnames[vi].clone();
                 if self.dot_ok && self.rng.chance(2, 3) {
                     self.feat("variant:leading-dot");
                     // the whole `.Name` expression answers for the variant
@@ -593,12 +619,9 @@ impl<'a> Gen<'a> {
                 if !vts.is_empty() {
                     let p0 = self.pos();
                     self.w("(");
-                    for (k, ft) in vts.iter().enumerate() {
-                        if k > 0 {
-                            self.w(", ");
-                        }
-                        self.expr(ft, depth + 1);
-                    }
+                    let params: Vec<(Option<String>, Ty, bool)> =
+                        vts.iter().enumerate().map(|(k, ft)| (vnames.as_ref().map(|ns| ns[k].clone()), ft.clone(), false)).collect();
+                    self.call_args(&params, depth);
                     self.w(")");
                     let hi = self.pos();
                     self.probe(p0, p0 + 1, t, "call-paren");
@@ -609,6 +632,43 @@ impl<'a> Gen<'a> {
         }
         let hi = self.pos();
         self.probe(lo, hi, t, "literal");
+    }
+
+    /// the arguments of a call, positional, named (`label = value`), mixed, in or out of declaration order, trailing
+    /// defaulted ones possibly left out; every value is an expression of the parameter's type written in place
+    fn call_args(&mut self, params: &[(Option<String>, Ty, bool)], depth: u32) {
+        let all_named = !params.is_empty() && params.iter().all(|p| p.0.is_some());
+        let mut n = params.len();
+        while n > 0 && params[n - 1].2 && self.rng.chance(1, 2) {
+            self.feat("call:default-omitted");
+            n -= 1;
+        }
+        let style = if all_named { self.rng.below(4) } else { 0 };
+        // number of leading positional arguments
+        let npos = match style {
+            0 => n,
+            1 | 2 => 0,
+            _ => self.rng.below(n as u64 + 1) as usize,
+        };
+        let mut order: Vec<usize> = (0..n).collect();
+        if style == 2 && n > 1 {
+            self.feat("call:named-reordered");
+            order.reverse();
+        }
+        for (k, &i) in order.iter().enumerate() {
+            if k > 0 {
+                self.w(", ");
+            }
+            let (name, ty, _) = &params[i];
+            if i >= npos {
+                if let Some(name) = name {
+                    self.feat("call:named-arg");
+                    self.ident(name, None, "arg-label");
+                    self.w(" = ");
+                }
+            }
+            self.expr_typed(ty, depth + 1);
+        }
     }
 
     fn println(&mut self, depth: u32) {
@@ -629,6 +689,8 @@ impl<'a> Gen<'a> {
         let ft = Ty::Fn(ps.to_vec(), Box::new(r.clone()));
         let lo = self.pos();
         self.w("(");
+        let saved_base = self.closure_base;
+        self.closure_base = self.scopes.len();
         self.scopes.push(vec![]);
         for (i, p) in ps.iter().enumerate() {
             if i > 0 {
@@ -656,6 +718,7 @@ impl<'a> Gen<'a> {
             self.expr(r, depth + 1);
         }
         self.scopes.pop();
+        self.closure_base = saved_base;
     }
 
     /// `{ stmts; expr }` with its own scope
@@ -691,8 +754,34 @@ impl<'a> Gen<'a> {
             })
             .collect();
         let arrays: Vec<&Var> = vis.iter().filter(|v| v.alias.is_none() && matches!(&v.ty, Ty::Arr(e) if **e == *t)).collect();
+        let methods: Vec<(&Var, usize)> = vis
+            .iter()
+            .filter(|v| v.alias.is_none() && *t == Ty::Int)
+            .filter_map(|v| match &v.ty {
+                Ty::Struct(i) if self.structs[*i].method.is_some() && self.structs[*i].decl.file == self.cur_idx => Some((v, *i)),
+                _ => None,
+            })
+            .collect();
         let deep = depth >= 4 || self.budget <= 0;
         let k = self.rng.below(10);
+        let own_method: Option<usize> = self.vis_structs.iter().copied().find(|i| self.structs[*i].method.is_some() && self.structs[*i].decl.file == self.cur_idx);
+        if let (Some(si), true, false, true) = (own_method, *t == Ty::Int, deep, k == 9) {
+            // method call on a freshly constructed value: `Pt(..).mth(k = …, w = …)`
+            self.feat("method-call");
+            let (mname, _mdecl, mps) = self.structs[si].method.clone().unwrap();
+            self.literal(&Ty::Struct(si), depth + 1);
+            self.w(".");
+            self.ident(&mname, None, "method-name");
+            let p0 = self.pos();
+            self.w("(");
+            let params: Vec<(Option<String>, Ty, bool)> = mps.iter().map(|(n, t)| (Some(n.clone()), t.clone(), false)).collect();
+            self.call_args(&params, depth);
+            self.w(")");
+            let hi = self.pos();
+            self.probe(p0, p0 + 1, t, "call-paren");
+            self.probe(hi - 1, hi, t, "call-paren");
+            return;
+        }
         if !same.is_empty() && (k < 4 || deep) {
             let v = (*self.rng.pick(&same)).clone();
             self.use_var(&v);
@@ -703,13 +792,33 @@ impl<'a> Gen<'a> {
             let p0 = self.pos();
             self.w("(");
             if let Ty::Fn(ps, _) = &f.ty {
-                for (i, p) in ps.iter().enumerate() {
-                    if i > 0 {
-                        self.w(", ");
-                    }
-                    self.expr_typed(p, depth + 1);
-                }
+                let named = f.alias.is_none() && f.params.len() == ps.len();
+                let params: Vec<(Option<String>, Ty, bool)> = ps
+                    .iter()
+                    .enumerate()
+                    .map(|(i, p)| if named { (Some(f.params[i].0.clone()), p.clone(), f.params[i].1) } else { (None, p.clone(), false) })
+                    .collect();
+                self.call_args(&params, depth);
             }
+            self.w(")");
+            let hi = self.pos();
+            self.probe(p0, p0 + 1, t, "call-paren");
+            self.probe(hi - 1, hi, t, "call-paren");
+        } else if !methods.is_empty() && k < 9 && !deep && self.rng.chance(1, 2) {
+            // method call on a struct value: `p.mth(k = …, w = …)`
+            self.feat("method-call");
+            let (v, si) = {
+                let (v, si) = self.rng.pick(&methods);
+                ((*v).clone(), *si)
+            };
+            let (mname, _mdecl, mps) = self.structs[si].method.clone().unwrap();
+            self.use_var(&v);
+            self.w(".");
+            self.ident(&mname, None, "method-name");
+            let p0 = self.pos();
+            self.w("(");
+            let params: Vec<(Option<String>, Ty, bool)> = mps.iter().map(|(n, t)| (Some(n.clone()), t.clone(), false)).collect();
+            self.call_args(&params, depth);
             self.w(")");
             let hi = self.pos();
             self.probe(p0, p0 + 1, t, "call-paren");
@@ -964,7 +1073,11 @@ impl<'a> Gen<'a> {
             4 => {
                 // assignment to a visible `var`
                 let vis = self.visible();
-                let muts: Vec<&Var> = vis.iter().filter(|v| v.mutable && v.alias.is_none()).collect();
+                let base = self.closure_base.min(self.scopes.len());
+                let muts: Vec<&Var> = vis
+                    .iter()
+                    .filter(|v| v.mutable && v.alias.is_none() && self.scopes[base..].iter().any(|sc| sc.iter().any(|x| x.decl == v.decl)))
+                    .collect();
                 if muts.is_empty() {
                     return self.println(depth);
                 }
@@ -1057,10 +1170,13 @@ impl<'a> Gen<'a> {
                 self.feat("task-block");
                 self.w("task {");
                 self.ind += 1;
+                let saved_base = self.closure_base;
+                self.closure_base = self.scopes.len();
                 self.scopes.push(vec![]);
                 let n = 1 + self.rng.below(2) as usize;
                 self.stmts(n, depth + 1);
                 self.scopes.pop();
+                self.closure_base = saved_base;
                 self.ind -= 1;
                 self.nl();
                 self.w("}");
@@ -1119,9 +1235,46 @@ impl<'a> Gen<'a> {
                 fields.push((fname.to_string(), ft, self.here(fl, fh)));
             }
             self.w(" }\n");
-            self.structs.push(StructD { name: type_names.0.to_string(), decl, fields });
+            self.structs.push(StructD { name: type_names.0.to_string(), decl, fields, method: None });
             my_structs.push(self.structs.len() - 1);
             self.vis_structs.push(self.structs.len() - 1);
+            if self.rng.chance(2, 3) {
+                // an extension method with labelled parameters
+                self.feat("method-def");
+                let si = self.structs.len() - 1;
+                let mname = if idx == 0 { "mth" } else { "mthl" };
+                self.w("extend ");
+                let (sn, sdecl) = (self.structs[si].name.clone(), self.structs[si].decl.clone());
+                self.ident(&sn, Some(sdecl), "type-name");
+                self.w(" {\n  fn ");
+                let (ml, mh) = self.ident(mname, None, "method-decl");
+                self.w("(");
+                self.scopes = vec![vec![], vec![]];
+                let (sl, sh) = self.ident("self", None, "param-decl");
+                let sd = self.here(sl, sh);
+                self.bind("self", Ty::Struct(si), sd, false);
+                let mps = vec![("k".to_string(), Ty::Int), ("w".to_string(), self.base_ty())];
+                for (pn, pt) in &mps {
+                    self.w(", ");
+                    let (pl, ph) = self.ident(pn, None, "param-decl");
+                    self.probe(pl, ph, pt, "param-decl");
+                    self.w(": ");
+                    self.annot(pt);
+                    let d = self.here(pl, ph);
+                    self.bind(pn, pt.clone(), d, false);
+                }
+                self.w(") -> int {");
+                self.ind = 2;
+                self.scopes.push(vec![]);
+                self.budget = 12;
+                self.nl();
+                self.expr(&Ty::Int, 2);
+                self.ind = 0;
+                self.w("\n  }\n}\n");
+                self.scopes.clear();
+                let md = self.here(ml, mh);
+                self.structs[si].method = Some((mname.to_string(), md, mps));
+            }
         }
         if self.rng.chance(3, 4) {
             self.feat("enum-def");
@@ -1130,6 +1283,7 @@ impl<'a> Gen<'a> {
             let decl = self.here(l, h);
             self.w(" = ");
             let mut variants = vec![];
+            let mut vnames: Vec<Option<Vec<String>>> = vec![];
             let nv = 2 + self.rng.below(2);
             for k in 0..nv {
                 if k > 0 {
@@ -1139,21 +1293,27 @@ impl<'a> Gen<'a> {
                 let (vl, _) = self.ident(&vname, None, "variant-decl");
                 let nts = self.rng.below(3) as usize;
                 let ts: Vec<Ty> = (0..nts).map(|_| self.base_ty()).collect();
+                let named = !ts.is_empty() && self.rng.chance(1, 2);
                 if !ts.is_empty() {
                     self.w("(");
                     for (j, t) in ts.iter().enumerate() {
                         if j > 0 {
                             self.w(", ");
                         }
+                        if named {
+                            self.ident(["p0", "p1", "p2"][j], None, "variant-field-decl");
+                            self.w(": ");
+                        }
                         self.annot(t);
                     }
                     self.w(")");
                 }
                 let vh = self.pos();
+                vnames.push(if named { Some((0..ts.len()).map(|j| ["p0", "p1", "p2"][j].to_string()).collect()) } else { None });
                 variants.push((vname, ts, DeclRef { file: idx, lo: vl, hi: vh, variant: true }));
             }
             self.w("\n");
-            self.enums.push(EnumD { name: type_names.1.to_string(), decl, variants });
+            self.enums.push(EnumD { name: type_names.1.to_string(), decl, variants, vnames });
             my_enums.push(self.enums.len() - 1);
             self.vis_enums.push(self.enums.len() - 1);
         }
@@ -1161,6 +1321,8 @@ impl<'a> Gen<'a> {
         struct Sig {
             name: String,
             ps: Vec<(String, Ty)>,
+            /// the last `ndef` parameters have a literal default value
+            ndef: usize,
             ret: Ty,
         }
         let mut sigs = vec![];
@@ -1174,7 +1336,11 @@ impl<'a> Gen<'a> {
                 ps.push((n, t));
             }
             let ret = self.base_ty();
-            sigs.push(Sig { name: fname.to_string(), ps, ret });
+            let mut ndef = 0;
+            while ndef < ps.len() && BASE.contains(&ps[ps.len() - 1 - ndef].1) && self.rng.chance(1, 3) {
+                ndef += 1;
+            }
+            sigs.push(Sig { name: fname.to_string(), ps, ndef, ret });
         }
         // the text positions of the function names are known only when written: write, then patch the scope
         let mut file_scope: Vec<Var> = imports;
@@ -1183,6 +1349,7 @@ impl<'a> Gen<'a> {
             file_scope.push(Var {
                 name: s.name.clone(), ty: Ty::Fn(s.ps.iter().map(|p| p.1.clone()).collect(), Box::new(s.ret.clone())),
                 decl: DeclRef { file: idx, lo: 0, hi: 0, variant: false }, mutable: false, alias: None,
+                params: s.ps.iter().enumerate().map(|(i, p)| (p.0.clone(), i + s.ndef >= s.ps.len())).collect(),
             });
         }
         // pre-compute name positions by a dry layout: function headers are written in order, bodies after
@@ -1213,6 +1380,7 @@ impl<'a> Gen<'a> {
                 self.w("(");
                 self.cur.probes.push(TyProbe { lo: op, hi: op + 1, ty: NO_TYPE.to_string(), what: "fn-header" });
                 self.scopes = vec![file_scope.clone(), vec![]];
+                self.closure_base = 0;
                 for (i, (pn, pt)) in s.ps.iter().enumerate() {
                     if i > 0 {
                         self.w(", ");
@@ -1221,6 +1389,11 @@ impl<'a> Gen<'a> {
                     self.probe(pl, ph, pt, "param-decl");
                     self.w(": ");
                     self.annot(pt);
+                    if i + s.ndef >= s.ps.len() {
+                        self.feat("param-default");
+                        self.w(" = ");
+                        self.literal(pt, 3);
+                    }
                     let d = self.here(pl, ph);
                     self.bind(pn, pt.clone(), d, false);
                 }
